@@ -217,6 +217,30 @@ def run(ctx: Ctx) -> int:
             if v is None or _esa(v[1]) != got:
                 ctx.broken.append(f"correspondence:sum model {v} impl {got} on {l}")
                 break
+    # batched sums (evaluate() sums a (batch, terms) array): every row must equal the sum of that row alone, whatever the other rows hold
+    for bi in range(40 if quick else 400):
+        n = int(rng.integers(1, 7))
+        nb = int(rng.integers(2, 5))
+        offs = [int(rng.integers(-3, 4)) + (0 if rng.random() < 0.5 else int(rng.choice([-60, -40, -33, 33, 40, 60]))) for _ in range(nb)]
+        rows = [[(rand_q4(rng, "small"), offs[b] + int(rng.integers(0, 5))) for _ in range(n)] for b in range(nb)]
+        s = ExactScalarArray(jnp.array([[c for c, _ in r] for r in rows], dtype=jnp.int32), jnp.array([[p_ for _, p_ in r] for r in rows], dtype=jnp.int32)).sum()
+        lead = tuple(np.asarray(s.power).shape)
+        if lead != (nb,) or tuple(np.asarray(s.coeffs).shape) != (nb, 4):
+            ctx.violation("sum-batched-shape", f"sum of a ({nb},{n}) batch returned coeffs {np.asarray(s.coeffs).shape} / power {lead}", {"op": "sum-batched", "rows": rows})
+            break
+        stop = False
+        for b, r in enumerate(rows):
+            m = min(p_ for _, p_ in r)
+            exact = tuple(sum(c[k] * (1 << (p_ - m)) for c, p_ in r) for k in range(4))
+            got = (tuple(int(v) for v in np.asarray(s.coeffs)[b]), int(np.asarray(s.power)[b]))
+            ctx.count(("sum-batched", tuple(map(tuple, rows)), b), nontrivial=len(set(offs)) > 1, bucket="sum-batched")
+            if not _same_value(got, (exact, m)):
+                ctx.violation("sum-batched", f"row {b} of a batched sum = {list(got[0])}*2^{got[1]}, exact {list(exact)}*2^{m}; the other rows sit at powers {offs}",
+                              {"op": "sum-batched", "rows": rows, "row": b, "impl": [list(got[0]), got[1]], "exact": [list(exact), m]})
+                stop = True
+                break
+        if stop:
+            break
     # empty axis: jnp.min raises
     try:
         ExactScalarArray(jnp.zeros((0, 4), dtype=jnp.int32), jnp.zeros((0,), dtype=jnp.int32)).sum()
@@ -354,4 +378,17 @@ def replay(ctx: Ctx, obj) -> int:
             exact = mul_ref(exact, c)
         print("impl now:", got, "exact:", exact, sum(p for _, p in l))
         return 0 if _same_value(got, (exact, sum(p for _, p in l))) else 1
+    if r.get("op") == "sum-batched":
+        rows = r["rows"]
+        s = ExactScalarArray(jnp.array([[c for c, _ in rr] for rr in rows], dtype=jnp.int32), jnp.array([[p for _, p in rr] for rr in rows], dtype=jnp.int32)).sum()
+        b = r["row"]
+        got = (tuple(int(v) for v in np.asarray(s.coeffs)[b]), int(np.asarray(s.power)[b]))
+        print("impl now:", got, "exact:", r["exact"])
+        return 0 if _same_value(got, (tuple(r["exact"][0]), r["exact"][1])) else 1
+    if r.get("op") == "sum":
+        l = r["terms"]
+        s = ExactScalarArray(jnp.array([c for c, _ in l], dtype=jnp.int32), jnp.array([p for _, p in l], dtype=jnp.int32)).sum()
+        got = (tuple(int(v) for v in np.asarray(s.coeffs)), int(s.power))
+        print("impl now:", got, "exact:", r["exact"])
+        return 0 if _same_value(got, (tuple(r["exact"][0]), r["exact"][1])) else 1
     return 1
